@@ -704,7 +704,7 @@ def Balanced (c : CState) (v : Nat) : Prop :=
 
 inductive Verdict where
   | ok (cert : Cert)
-  | reject (block : Nat) (reason : String) (entry : AState)
+  | reject (block : Nat) (reason : String) (entry : AState) (other : AState)
   deriving Repr, Inhabited
 
 def errName : Err → String
@@ -747,13 +747,13 @@ def propagate (it : Item) : Nat → List (Nat × AState) → Cert → Verdict
       | none => some (some a)
     match next with
     | none => propagate it fuel work cert
-    | some none => .reject l "join" a
+    | some none => .reject l "join" a ((certAt cert l).getD [])
     | some (some a) =>
       match it.findBlock l with
-      | none => .reject l "missing-block" a
+      | none => .reject l "missing-block" a []
       | some b =>
         match aRun it a b.instrs with
-        | .error e => .reject l (errName e) a
+        | .error e => .reject l (errName e) a []
         | .ok a1 =>
           let cert' := certSet cert l a
           match b.term with
@@ -767,7 +767,7 @@ def propagate (it : Item) : Nat → List (Nat × AState) → Cert → Verdict
           | .ret v =>
             match aRet it a1 v with
             | .ok _ => propagate it fuel work cert'
-            | .error e => .reject l ("return-" ++ errName e) a
+            | .error e => .reject l ("return-" ++ errName e) a []
 
 def edgeCount (it : Item) : Nat :=
   it.blocks.foldl (fun n b =>
@@ -775,8 +775,8 @@ def edgeCount (it : Item) : Nat :=
 
 def analyse (it : Item) : Verdict :=
   match propagate it (8 * edgeCount it) [(entryLabel it, initA it)] [] with
-  | .reject l r a => .reject l r a
+  | .reject l r a o => .reject l r a o
   | .ok cert =>
-    if ownCheck it cert then .ok cert else .reject (entryLabel it) "certificate-rejected" []
+    if ownCheck it cert then .ok cert else .reject (entryLabel it) "certificate-rejected" [] []
 
 end RotoV.Mir
